@@ -18,33 +18,7 @@ DER = 'asn1tools/codecs/der.py'
 COMP = 'asn1tools/compiler.py'
 
 
-def local_reach(model, f, limit=4):
-    """Functions reachable from f through calls of plain module-level names and self.<method> (the class of f),
-    to a small depth: the helpers a refactoring may have extracted."""
-    seen = {f}
-    frontier = [f]
-    for _ in range(limit):
-        nxt = []
-        for g in frontier:
-            cls = getattr(g, '_cls', None)
-            for c in walk_no_nested(g):
-                if not isinstance(c, ast.Call):
-                    continue
-                t = None
-                if isinstance(c.func, ast.Name):
-                    r = g._mod.resolve_name(c.func.id)
-                    t = r if isinstance(r, ast.FunctionDef) else None
-                elif isinstance(c.func, ast.Attribute) and isinstance(c.func.value, ast.Name) and c.func.value.id == 'self' and cls is not None:
-                    r = cls.find_method(c.func.attr)
-                    t = r[1] if r else None
-                elif isinstance(c.func, ast.Attribute):
-                    r = g._mod.resolve(c.func)
-                    t = r if isinstance(r, ast.FunctionDef) else None
-                if t is not None and t not in seen:
-                    seen.add(t)
-                    nxt.append(t)
-        frontier = nxt
-    return seen
+local_reach = flow.local_reach
 
 
 def check(ctx):
